@@ -22,7 +22,7 @@ import (
 
 func shutdownBody(c cfg, r *run) func(*vsched.Exec) {
 	return func(x *vsched.Exec) {
-		*r = run{c: c, returned: make([]int, 1), obj: new(int)}
+		*r = run{c: c, returned: make([]int, 1), obj: new(int), failsLeft: c.Failures}
 		base, mock := fx.NewClock(context.Background())
 		r.mock = mock
 		w := vsched.EnvGet("clock").(clock.Clock)
@@ -43,14 +43,17 @@ func shutdownBody(c cfg, r *run) func(*vsched.Exec) {
 			vsched.Access(r.obj, true, "run-returned")
 			r.runReturned = true
 			// whatever the last flush held has been posted by now, or it never will be
-			sent := false
+			delivered, attempts := false, 0
 			for _, a := range r.attempts {
 				for _, n := range a.names {
-					sent = sent || n == dpName(0, 0, 0)
+					if n == dpName(0, 0, 0) {
+						attempts++
+						delivered = delivered || a.outcome == 0
+					}
 				}
 			}
-			if cn := h.VerifCounters(); !sent && cn[4] == 0 {
-				r.fail("lost-at-shutdown", fmt.Sprintf("Run returned; the datapoint dispatched before the shutdown is in no request and nothing was counted as dropped (created %d sent %d dropped %d)", cn[1], cn[2], cn[4]))
+			if cn := h.VerifCounters(); !delivered && cn[4] == 0 {
+				r.fail("lost-at-shutdown", fmt.Sprintf("Run returned; the datapoint dispatched before the shutdown was not delivered (%d attempts) and nothing was counted as dropped (created %d sent %d dropped %d)", attempts, cn[1], cn[2], cn[4]))
 			}
 		})
 		vsched.Quiesce("started")
@@ -59,6 +62,12 @@ func shutdownBody(c cfg, r *run) func(*vsched.Exec) {
 		h.DispatchMetricMap(ctx, mm)
 		vsched.Cancel(cancel)
 		vsched.Quiesce("shut-down")
+		// a refused attempt is retried after its back-off, shutdown or not: time passes until Run is through
+		for step := 0; step < 8 && !r.runReturned && mock.Len() > 0; step++ {
+			vsched.ClockOp(true, "advance-next")
+			mock.AddNext()
+			vsched.Quiesce("after-advance")
+		}
 		if !r.runReturned {
 			r.fail("run-did-not-return", "HttpForwarderHandlerV2.Run is still running after its context ended and everything came to rest")
 		}
